@@ -379,6 +379,7 @@ func main() {
 	}
 	r.Guard("concurrent race child", func() { concurrentRaceChild(r, r.Pick(600, 6000)) })
 	r.Floor("concurrent_attacker_requests_refused", int(r.Counter("concurrent_attacker_requests_refused")), r.Pick(6000, 80000))
+	r.Floor("concurrent_answers_abandoned_by_a_verified_controller", int(r.Counter("concurrent_answers_abandoned_by_a_verified_controller")), 100)
 	r.Floor("concurrent_legit_requests_served", int(r.Counter("concurrent_legit_requests_served")), 1000)
 	r.Floor("collision_scenarios", int(r.Counter("collision_scenarios")), 8)
 	r.Floor("attacker_requests", int(r.Counter("attacker_requests")), 1000)
